@@ -18,14 +18,13 @@ Qed.
 
 (* whatever the float arithmetic does: an open that succeeds never maps more
    than the file holds, hence exposes at most the complete frames *)
-Lemma opened_within_file online wok nbytes nc fts fs ns nc' fts' rw :
+Lemma opened_within_file online nbytes nc fts fs ns nc' fts' rw :
   1 <= nc ->
-  open_bin online wok nbytes nc fts fs = Opened ns nc' fts' rw ->
+  open_bin online nbytes nc fts fs = Opened ns nc' fts' rw ->
   nc' = nc /\ 0 <= ns /\ ns * nc * 2 <= nbytes /\ ns <= nbytes / (2 * nc).
 Proof.
   intros Hnc. unfold open_bin.
   destruct (reader_ns online nbytes nc fts fs) as [ns0| |]; try discriminate.
-  destruct (negb (nc * ns0 * 2 =? nbytes) && negb wok); try discriminate.
   destruct (reader_ns online nbytes nc _ fs) as [ns1| |]; try discriminate.
   destruct (memmap_ok nbytes ns1 nc) eqn:Hm; try discriminate.
   intros H. injection H as <- <- _ _.
@@ -360,18 +359,17 @@ Proof.
 Qed.
 
 (* Reader (offline, meta with fileTimeSecs): the open succeeds and exposes exactly the complete frames *)
-Lemma open_offline_floor wok nbytes nc t fs ns0 :
+Lemma open_offline_floor nbytes nc t fs ns0 :
   1 <= nc -> 1 <= nbytes -> nbytes / (2 * nc) <= 2 ^ 50 -> fs_ok fs ->
   ns_meta (Some t) fs = NsOk ns0 ->
-  wok = true ->
   let k := nbytes / (2 * nc) in
   let rw := negb (nc * ns0 * 2 =? nbytes) in
-  open_bin false wok nbytes nc (Some t) fs =
+  open_bin false nbytes nc (Some t) fs =
     Opened k nc (if rw then Some (rl k fs) else Some t) rw.
 Proof.
-  intros Hnc Hnb Hk Hfs Hns0 -> k rw.
+  intros Hnc Hnb Hk Hfs Hns0 k rw.
   destruct (floor_frames nbytes nc Hnc ltac:(lia)) as [[Hlo Hhi] Hk0]. fold k in Hlo, Hhi, Hk0.
-  unfold open_bin, reader_ns. rewrite Hns0. fold rw. rewrite andb_false_r.
+  unfold open_bin, reader_ns. rewrite Hns0. fold rw.
   destruct rw eqn:Erw.
   - unfold rl. fold k. rewrite (ns_meta_round_trip k fs ltac:(lia) Hfs).
     replace (memmap_ok nbytes k nc) with true; [reflexivity|].
@@ -383,33 +381,36 @@ Proof.
 Qed.
 
 (* OnlineReader: same, whatever fileTimeSecs the meta file has (or has not) *)
-Lemma open_online_floor wok nbytes nc fts fs :
+Lemma open_online_floor nbytes nc fts fs :
   1 <= nc < 2 ^ 53 -> 1 <= nbytes < 2 ^ 53 ->
-  wok = true ->
   let k := nbytes / (2 * nc) in
   let rw := negb (nc * k * 2 =? nbytes) in
-  open_bin true wok nbytes nc fts fs =
+  open_bin true nbytes nc fts fs =
     Opened k nc (if rw then Some (rl k fs) else fts) rw.
 Proof.
-  intros Hnc Hnb -> k rw.
+  intros Hnc Hnb k rw.
   destruct (floor_frames nbytes nc ltac:(lia) ltac:(lia)) as [[Hlo Hhi] Hk0]. fold k in Hlo, Hhi, Hk0.
   unfold open_bin, reader_ns. rewrite (ns_online_floor nbytes nc ltac:(lia) Hnc). fold k. fold rw.
-  rewrite andb_false_r.
   replace (memmap_ok nbytes k nc) with true; [|symmetry; apply memmap_ok_spec; nia].
   destruct rw; reflexivity.
 Qed.
 
-(* the defect: meta of a recording in progress + partial trailing frame + warnings on *)
-Lemma open_online_keyerror nbytes nc fts fs :
+(* recording in progress (meta file without fileTimeSecs), file ending in a partial frame:
+   OnlineReader opens with the floor frame count and writes fileTimeSecs = k / fs *)
+Lemma open_online_in_progress nbytes nc fs :
   1 <= nc < 2 ^ 53 -> 1 <= nbytes < 2 ^ 53 -> nbytes mod (2 * nc) <> 0 ->
-  open_bin true false nbytes nc fts fs = KeyErr.
+  let k := nbytes / (2 * nc) in
+  open_bin true nbytes nc None fs = Opened k nc (Some (rl k fs)) true.
 Proof.
-  intros Hnc Hnb Hmod. unfold open_bin, reader_ns.
-  rewrite (ns_online_floor nbytes nc ltac:(lia) Hnc).
-  replace (nc * (nbytes / (2 * nc)) * 2 =? nbytes) with false; [reflexivity|].
-  symmetry. apply Z.eqb_neq. intros E. apply Hmod.
+  intros Hnc Hnb Hmod k. rewrite (open_online_floor nbytes nc None fs Hnc Hnb). fold k.
+  replace (nc * k * 2 =? nbytes) with false; [reflexivity|].
+  symmetry. apply Z.eqb_neq. intros E. apply Hmod. subst k.
   pose proof (Z.div_mod nbytes (2 * nc) ltac:(lia)). lia.
 Qed.
+
+(* the offline Reader cannot evaluate Reader.ns without fileTimeSecs: TypeError, always *)
+Lemma open_offline_no_fts nbytes nc fs : open_bin false nbytes nc None fs = TypeErr.
+Proof. reflexivity. Qed.
 
 (* compressed stream: the .ch announces chns frames *)
 Lemma open_cbin_exposes chns nc t fs ns0 :
